@@ -33,6 +33,7 @@ import (
 	"net/url"
 	"os"
 	"os/exec"
+	"path"
 	"path/filepath"
 	"regexp"
 	"sort"
@@ -43,8 +44,9 @@ import (
 	"time"
 
 	"github.com/google/martian/v3"
+	"github.com/google/martian/v3/api"
 	_ "github.com/google/martian/v3/failure"
-	_ "github.com/google/martian/v3/fifo"
+	"github.com/google/martian/v3/fifo"
 	"github.com/google/martian/v3/header"
 	mlog "github.com/google/martian/v3/log"
 	"github.com/google/martian/v3/martianhttp"
@@ -53,6 +55,7 @@ import (
 	"github.com/google/martian/v3/parse"
 	_ "github.com/google/martian/v3/pingback"
 	"github.com/google/martian/v3/querystring"
+	"github.com/google/martian/v3/servemux"
 	_ "github.com/google/martian/v3/status"
 	"github.com/google/martian/v3/verify"
 
@@ -395,6 +398,28 @@ type message struct {
 	h, g   []int // headers X-H<i>: 1 / X-H<i>: 2
 	q, r   []int // query k<i>=1 / k<i>=2
 	bad    int   // 0: well-formed query; 1..3: a query string req.ParseForm rejects (then q, r are not sent)
+	raw    *rawMsg
+}
+
+// rawMsg describes a message that is not built from the small domains: a
+// request to the proxy's own API (and its answer).
+type rawMsg struct {
+	method, host, path string
+	code               int
+}
+
+func (m *message) pathString() string {
+	if m.raw != nil {
+		return m.raw.path
+	}
+	return fmt.Sprintf("/p%d", m.path)
+}
+
+func (m *message) statusCode() int {
+	if m.raw != nil {
+		return m.raw.code
+	}
+	return 200 + m.status
 }
 
 // query strings net/url refuses: bad escape, trailing '%', ';' separator
@@ -492,6 +517,9 @@ func (m *message) token() string {
 }
 
 func (m *message) methodName() string {
+	if m.raw != nil {
+		return m.raw.method
+	}
 	if m.method == 0 {
 		return "GET"
 	}
@@ -499,6 +527,9 @@ func (m *message) methodName() string {
 }
 
 func (m *message) urlString() string {
+	if m.raw != nil {
+		return fmt.Sprintf("http://%s%s?n=%d", m.raw.host, m.raw.path, m.mid)
+	}
 	var qs []string
 	if m.bad != 0 {
 		qs = append(qs, badQueries[m.bad])
@@ -625,7 +656,7 @@ func errorTexts(leaf *node, m *message, u string, firstQ int) []string {
 	}
 	switch leaf.typ {
 	case 's':
-		return []string{fmt.Sprintf("response(%s) status code verify failure: got %d, want %d", u, 200+m.status, 200+leaf.id)}
+		return []string{fmt.Sprintf("response(%s) status code verify failure: got %d, want %d", u, m.statusCode(), 200+leaf.id)}
 	case 'h':
 		name := fmt.Sprintf("X-H%d", leaf.id)
 		vs := m.headerValues(leaf.id)
@@ -643,8 +674,14 @@ func errorTexts(leaf *node, m *message, u string, firstQ int) []string {
 		if leaf.id%3 == 2 {
 			parts = append(parts, fmt.Sprintf("\t%s: got %q, want %q", "Scheme", "http", "https"))
 		}
-		if m.path != leaf.id || len(parts) == 0 {
-			parts = append(parts, fmt.Sprintf("\t%s: got %q, want %q", "Path", fmt.Sprintf("/p%d", m.path), fmt.Sprintf("/p%d", leaf.id)))
+		if m.raw != nil && leaf.id%3 == 0 {
+			// an API request's host is not the one the host variant of the verifier expects
+			if pu, err := url.Parse(u); err == nil && pu.Host != "h.example" {
+				parts = append(parts, fmt.Sprintf("\t%s: got %q, want %q", "Host", pu.Host, "h.example"))
+			}
+		}
+		if m.raw != nil || m.path != leaf.id || len(parts) == 0 {
+			parts = append(parts, fmt.Sprintf("\t%s: got %q, want %q", "Path", m.pathString(), fmt.Sprintf("/p%d", leaf.id)))
 		}
 		return []string{fmt.Sprintf("request(%s) url verify failure:\n%s", u, strings.Join(parts, "\n"))}
 	case 'q':
@@ -684,6 +721,8 @@ type system struct {
 	texts   map[string]string // error text -> "v:mid" / "v:-"
 	gate    *gate
 	gateID  int
+	front   byte   // 0: none; c, m, n: the proxy's API front (servemux filter + api.Forwarder) ahead of the tree
+	apiHost string // host:port the forwarder rewrites to
 }
 
 func (s *system) close() {
@@ -756,6 +795,174 @@ func newSystem(tree *node, direct bool) (*system, string) {
 	s.rh.SetRequestVerifier(s.m)
 	s.rh.SetResponseVerifier(s.m)
 	return s, "ok"
+}
+
+const apiPort = 8181
+
+// installFront puts, ahead of the configured tree, what cmd/proxy and
+// mobile/proxy.go put there: a fifo.Group whose first request modifier is a
+// servemux.Filter over the API mux running api.Forwarder (the only code that
+// marks a request as an API request).
+//
+//	c: cmd/proxy   - patterns martian.proxy/<p> and localhost:8181/<p>, NewForwarder("", 8181)
+//	m: mobile      - host-less patterns /<p> and localhost:8181/<p>,    NewForwarder("", 8181)
+//	n: as m with a named API host                                       NewForwarder("api.local", 8181)
+func (s *system) installFront(style byte) {
+	mux := http.NewServeMux()
+	host := "localhost"
+	if style == 'n' {
+		host = "api.local"
+	}
+	s.apiHost = fmt.Sprintf("%s:%d", host, apiPort)
+	handle := func(pattern string, h http.Handler) {
+		if style == 'c' {
+			mux.Handle(path.Join("martian.proxy", pattern), h)
+		} else {
+			mux.Handle(pattern, h)
+		}
+		mux.Handle(path.Join(s.apiHost, pattern), h)
+	}
+	handle("/configure", s.m)
+	handle("/verify", s.vh)
+	handle("/verify/reset", s.rh)
+	apif := servemux.NewFilter(mux)
+	fhost := ""
+	if style == 'n' {
+		fhost = host
+	}
+	apif.SetRequestModifier(api.NewForwarder(fhost, apiPort))
+	top := fifo.NewGroup()
+	top.AddRequestModifier(apif)
+	top.AddRequestModifier(s.m)
+	top.AddResponseModifier(s.m)
+	s.reqmod, s.resmod = top, top
+	s.front = style
+}
+
+func decodeVerify(rec *httptest.ResponseRecorder) ([]string, string) {
+	if rec.Code != 200 {
+		return nil, fmt.Sprintf("status%d", rec.Code)
+	}
+	var body struct {
+		Errors []struct {
+			Message string `json:"message"`
+		} `json:"errors"`
+	}
+	if err := json.Unmarshal(rec.Body.Bytes(), &body); err != nil {
+		return nil, "badjson"
+	}
+	if body.Errors == nil {
+		return nil, "noerrorsfield"
+	}
+	ts := make([]string, len(body.Errors))
+	for i, e := range body.Errors {
+		ts[i] = e.Message
+	}
+	return ts, ""
+}
+
+// apiCall performs a whole exchange with the proxy's own API THROUGH the
+// proxy: A<Q|R|C><2|3> = GET /verify, POST /verify/reset, GET /configure
+// addressed by the alias host (2: http://martian.proxy/...) or by the API
+// server's own host:port (3).  The request goes through the front and the
+// tree, the API handler runs, the answer goes back through the tree.  Neither
+// may be counted by any verifier.
+func (s *system) apiCall(op string, idx int) string {
+	if s.front == 0 || len(op) != 3 || (s.front == 'c' && op[2] == '3') {
+		return ""
+	}
+	var pth, meth string
+	var h http.Handler
+	switch op[1] {
+	case 'Q':
+		pth, meth, h = "/verify", "GET", s.vh
+	case 'R':
+		pth, meth, h = "/verify/reset", "POST", s.rh
+	case 'C':
+		pth, meth, h = "/configure", "GET", s.m
+	default:
+		return ""
+	}
+	host := "martian.proxy"
+	if op[2] == '3' {
+		host = s.apiHost
+	} else if op[2] != '2' {
+		return ""
+	}
+	m := &message{mid: idx, kind: 'q', raw: &rawMsg{method: meth, host: host, path: pth}}
+	u, err := url.Parse(m.urlString())
+	if err != nil {
+		return ""
+	}
+	req := &http.Request{Method: meth, URL: u, Host: u.Host, Header: http.Header{}, Proto: "HTTP/1.1", ProtoMajor: 1, ProtoMinor: 1}
+	post := fmt.Sprintf("http://%s%s?n=%d", s.apiHost, pth, idx)
+	register := func(mm *message) {
+		s.mu.Lock()
+		for _, l := range s.leaves {
+			for _, uu := range []string{m.urlString(), post} {
+				for _, t := range errorTexts(l, mm, uu, -1) {
+					s.texts[t] = fmt.Sprintf("%d:%d", l.id, idx)
+				}
+			}
+		}
+		s.mu.Unlock()
+	}
+	register(m)
+	_, remove, err := martian.TestContext(req, nil, nil)
+	if err != nil {
+		return fmt.Sprintf("E%d=err:ctx", idx)
+	}
+	defer remove()
+	if err := s.reqmod.ModifyRequest(req); err != nil {
+		return fmt.Sprintf("E%d=err:%s", idx, hx.HexS(err.Error()))
+	}
+	rec := httptest.NewRecorder()
+	h.ServeHTTP(rec, req)
+	ms := &message{mid: idx, kind: 's', raw: &rawMsg{method: meth, host: host, path: pth, code: rec.Code}}
+	register(ms)
+	res := &http.Response{StatusCode: rec.Code, Status: fmt.Sprintf("%d X", rec.Code), Proto: "HTTP/1.1", ProtoMajor: 1, ProtoMinor: 1,
+		Header: rec.Header(), Request: req, Body: io.NopCloser(bytes.NewReader(rec.Body.Bytes()))}
+	if err := s.resmod.ModifyResponse(res); err != nil {
+		return fmt.Sprintf("E%d=err:%s", idx, hx.HexS(err.Error()))
+	}
+	switch op[1] {
+	case 'Q':
+		ts, bad := decodeVerify(rec)
+		if bad != "" {
+			return fmt.Sprintf("A%d=!%s", idx, bad)
+		}
+		return fmt.Sprintf("A%d=%s", idx, s.canon(ts))
+	case 'R':
+		return fmt.Sprintf("Z%d=%d", idx, rec.Code)
+	}
+	return fmt.Sprintf("X%d=%d", idx, rec.Code)
+}
+
+// refused performs a call the handler must refuse: XR:<METHOD> on the reset
+// handler, XQ:<METHOD> on the verification handler.
+func (s *system) refused(op string, idx int) string {
+	f := strings.SplitN(op, ":", 2)
+	if len(f) != 2 || f[1] == "" {
+		return ""
+	}
+	for _, c := range f[1] {
+		if c < 'A' || c > 'Z' {
+			return ""
+		}
+	}
+	var h http.Handler
+	var target string
+	switch {
+	case f[0] == "XR" && f[1] != "POST":
+		h, target = s.rh, "http://martian.proxy/verify/reset"
+	case f[0] == "XQ" && f[1] != "GET":
+		h, target = s.vh, "http://martian.proxy/verify"
+	default:
+		return ""
+	}
+	rec := httptest.NewRecorder()
+	h.ServeHTTP(rec, httptest.NewRequest(f[1], target, nil))
+	return fmt.Sprintf("X%d=%d", idx, rec.Code)
 }
 
 // bits computes the model's input tables for one message and registers the
@@ -896,25 +1103,7 @@ func (s *system) query(op string) ([]string, string) {
 	case "Q":
 		rec := httptest.NewRecorder()
 		s.vh.ServeHTTP(rec, httptest.NewRequest("GET", "http://martian.proxy/verify", nil))
-		if rec.Code != 200 {
-			return nil, fmt.Sprintf("status%d", rec.Code)
-		}
-		var body struct {
-			Errors []struct {
-				Message string `json:"message"`
-			} `json:"errors"`
-		}
-		if err := json.Unmarshal(rec.Body.Bytes(), &body); err != nil {
-			return nil, "badjson"
-		}
-		if body.Errors == nil {
-			return nil, "noerrorsfield"
-		}
-		ts := make([]string, len(body.Errors))
-		for i, e := range body.Errors {
-			ts[i] = e.Message
-		}
-		return ts, ""
+		return decodeVerify(rec)
 	case "Qq":
 		if s.reqv == nil {
 			return nil, ""
@@ -970,9 +1159,29 @@ func runSeq(in []string) (out []string) {
 	if s == nil {
 		return out
 	}
+	switch in[0] {
+	case "SEQ":
+		s.installFront('c')
+	case "SEQM":
+		s.installFront('m')
+	case "SEQN":
+		s.installFront('n')
+	}
 	for i := 2; i < len(in); i++ {
 		op := in[i]
 		switch {
+		case len(op) == 3 && op[0] == 'A':
+			t := s.apiCall(op, i)
+			if t == "" {
+				return []string{"BADCASE"}
+			}
+			out = append(out, t)
+		case strings.HasPrefix(op, "XR:") || strings.HasPrefix(op, "XQ:"):
+			t := s.refused(op, i)
+			if t == "" {
+				return []string{"BADCASE"}
+			}
+			out = append(out, t)
 		case strings.HasPrefix(op, "T"):
 			m, err := parseMessage(op, i)
 			if err != nil {
@@ -1449,7 +1658,7 @@ func runCase(in []string) []string {
 		return []string{"BADCASE"}
 	}
 	switch in[0] {
-	case "SEQ", "DIR":
+	case "SEQ", "SEQM", "SEQN", "DIR":
 		return runSeq(in)
 	case "CONC", "CONCB":
 		return runConc(in)
